@@ -23,7 +23,7 @@ def c11(ck, tier, seed):
                       "two variables in both orders: seeded random operation sequences; every event judged by the fixed truth tables of "
                       "TraceMV.tla (Kleene not/and/or, Lukasiewicz imp/equiv, ite as in the property) lifted pointwise over all "
                       "3^n assignments, eval against the node-by-node interpretation of the stored graph")
-    _run(ck, "tdd", ["C11", "C05X"], tier, seed)
+    _run(ck, "tdd", ["C11"], tier, seed)
 
 
 def c10(ck, tier, seed):
